@@ -839,7 +839,7 @@ def fam_prefix(cross=False):
                        'meta': {'prefix_sources': psub, 'dir_sources': dsub, 'a': a, 'nsrc': len(psub) + len(dsub)}}
     # a subproject's default prefix must not disturb the directory options of the build (prefix is not per subproject;
     # project.yaml: "not all options are taken into account when building as a subproject")
-    for top_src in ([], ['C']):
+    for top_src in ([], ['C'], ['M'], ['P'], ['P', 'M'], ['M', 'C']):
         for decoy in ('S', 'SC'):
             for dv in ('/usr', '/opt/q'):
                 scn = new_scn(cross, True)
@@ -1053,7 +1053,11 @@ def classify(case, okey, e, got):
                     break
     if fam == 'prefix-subdecoy' and where == 'top2' and name in SPECIAL_DIRS and \
             got == ref_dir_default(name, case['meta']['decoy_prefix']):
-        return 'C07:prefix:subproject-default-prefix-resets-parent-directory-options'
+        srcs = ''.join(case['meta'].get('prefix_sources', []))
+        # which of the documented sources gave the build's prefix, and where the subproject's prefix default came from
+        # (S = the subproject's project(), SC = subproject(default_options:))
+        return 'C07:prefix:subproject-default-prefix-resets-parent-directory-options' + \
+            ('' if srcs in ('', 'C') else ':top-prefix-from-%s:sub-prefix-from-%s' % (srcs, case['meta'].get('decoy')))
     if where == 'sub' and name.startswith(ALIAS_PREFIX['pyieldT']):
         # yield: true, parent option of the same name declared with another kind
         tops = {d[0]: d for d in scn.get('top_decl', [])}
